@@ -3,7 +3,7 @@ from abc import ABC
 from numbers import Real
 
 import numpy as np
-from sklearn.metrics.pairwise import PAIRWISE_KERNEL_FUNCTIONS, PAIRWISE_DISTANCE_FUNCTIONS, pairwise_kernels
+from sklearn.metrics.pairwise import PAIRWISE_KERNEL_FUNCTIONS, PAIRED_DISTANCES, pairwise_kernels
 from sklearn.neural_network._stochastic_optimizers import AdamOptimizer, SGDOptimizer
 from sklearn.utils._param_validation import Interval, StrOptions
 from sklearn.utils.extmath import softmax
@@ -322,7 +322,7 @@ class LinearWasserstein(LinearModel):
     """
     _parameter_constraints: dict = {
         **LinearModel._parameter_constraints,
-        "metric": [StrOptions(set(list(PAIRWISE_DISTANCE_FUNCTIONS) + ["precomputed"])), callable],
+        "metric": [StrOptions(set(list(PAIRED_DISTANCES) + ["precomputed"]))],
         "metric_params": [dict, None],
         "ovo": [bool],
     }
